@@ -183,7 +183,7 @@ func buildToolWorld(scratch string) *toolWorld {
 	dir := filepath.Join(scratch, "toolsrc")
 	copyRepo(dir)
 	addVerifsimToGoMod(dir)
-	res, err := rewrite.Packages(dir, rewrite.Options{MapOrder: true, OSSeam: true, RenameMain: "pigeonMain", Steps: true}, ".", "./ast", "./builder")
+	res, err := rewrite.Packages(dir, rewrite.Options{MapOrder: true, OSSeam: true, RenameMain: "pigeonMain", Steps: true, TaskSeam: true}, ".", "./ast", "./builder")
 	if err != nil {
 		fatalHarness("tool-world rewrite: %v", err)
 	}
